@@ -122,8 +122,9 @@ package dns
 
 //@ func DoH returns (m, err)
 //@   requires msg != nil
-//@   modifies rpos, closed
+//@   modifies rpos, closed, reqcount(0)
 //@   allocates Message, retryablehttp.Request, http.Request, retryablehttp.Client, http.Response
+//@   ensures[F:one-request] reqcount(0) <= old(reqcount(0)) + 1 && (err == nil ==> reqcount(0) == old(reqcount(0)) + 1)
 //@   ensures[F:typed] err == nil ==> m != nil && typedMsg(m)
 
 //@ func Message.ResponseCode returns (rc)
